@@ -878,7 +878,7 @@ func main() {
 	}
 
 	// ---- target files with comments at known offsets
-	var tbs [8]strings.Builder
+	var tbs [9]strings.Builder
 	var comments []cm
 	cur := 0
 	addc := func(prefix, c, suffix string) {
@@ -1184,6 +1184,31 @@ func main() {
 	tbs[7].WriteString("}\n")
 	addc("", "// GL1: drop this before the release", "\n")
 
+	// file 8: a file that begins with a UTF-8 BYTE ORDER MARK (legal Go; some editors write one): the scanner skips the mark, but
+	// every offset counts its three bytes -- the texts are cut from the bytes of the file as they are on disk, mark included
+	cur = 8
+	tbs[8].WriteString("\xef\xbb\xbfpackage target\n\n")
+	addc("", "// fam1:bb-a-é", "\n")
+	tbs[8].WriteString("func bm() {\n")
+	for i := 0; i < 8; i++ {
+		if i%2 == 0 {
+			familyComment()
+		} else {
+			randomComment()
+		}
+	}
+	for i := 0; i < 10; i++ {
+		addc("\t", classComments[rng.Intn(len(classComments))], "\n")
+	}
+	for i := 0; i < 6 && len(altBody) > 0; i++ {
+		altComment(altBody[rng.Intn(len(altBody))])
+	}
+	for _, c := range []string{"// TODO(bb): x", "// GL1: drop this before the release", "// left:=right k:=v", "/* S1~0123456789012345678901234567890123456789 S1~x */"} {
+		addc("\t", c, "\n")
+	}
+	tbs[8].WriteString("}\n")
+	addc("", "/* fam2:zz-q-a */", "")
+
 	fset := token.NewFileSet()
 	var targets []*target
 	for i := range tbs {
@@ -1275,7 +1300,7 @@ func main() {
 		srcs = append(srcs, t.src)
 		bases = append(bases, fset.File(t.file.Pos()).Base())
 	}
-	orders := map[int][]int{0: {0, 1, 2, 3, 4, 5, 6, 7}, 15: {0, 2, 3, 1, 4, 6, 5, 7}}
+	orders := map[int][]int{0: {0, 1, 2, 3, 4, 5, 6, 7, 8}, 15: {0, 2, 3, 1, 4, 6, 5, 8, 7}}
 	var pathOf []int
 	for i := range targets {
 		pathOf = append(pathOf, i)
